@@ -1,6 +1,6 @@
 (* C17 -- What fences does not understand is rejected with its own exception. (error-class lemmas of the models) *)
 From Coq Require Import String.
-From Fences Require Import Format FormatProofs Normalize.
+From Fences Require Import Format FormatProofs Normalize Regex Grammar ErrClass.
 
 (* format_parameter_value never fails with a non-library error *)
 Theorem C17_format_no_internal_error : forall name st explode v,
@@ -20,3 +20,18 @@ Print Assumptions C17_uninvertible_rejected.
 Theorem C17_remote_ref_rejected : pointer_from_string (kw "http://example.com/s.json") = LibErr EJsonPointer.
 Proof. vm_compute. reflexivity. Qed.
 Print Assumptions C17_remote_ref_rejected.
+
+(* regular expressions: for every expression of the dialect the model of parse_regex returns a graph, runs out of
+   recursion depth, or fails with the library's RegexException (bad range / bad bounds) -- no Python exception is
+   reachable *)
+Theorem C17_regex_own_exception : forall fuel r,
+  match parse_regex fuel r with PyErr _ => False | _ => True end.
+Proof. exact parse_regex_own. Qed.
+Print Assumptions C17_regex_own_exception.
+
+(* grammars: for every grammar and start symbol the model of convert() returns a graph, runs out of recursion depth,
+   or fails in resolve() with the library's ResolveReferenceException (unknown or doubly defined rule name) *)
+Theorem C17_grammar_own_exception : forall fuel G start,
+  match parse_grammar fuel G start with PyErr _ => False | _ => True end.
+Proof. exact parse_grammar_own. Qed.
+Print Assumptions C17_grammar_own_exception.
